@@ -31,26 +31,50 @@ type pubEncRes struct {
 func kEncPub1(alg string, key jwk.Key, pt, label []byte) (r pubEncRes) {
 	k2, kb := privKey(key)
 	p, l := clone(pt), clone(label)
-	defer func() {
-		if x := recover(); x != nil {
-			r = pubEncRes{pan: panStr(x)}
-		}
-	}()
-	r.ct, r.err = kc.EncryptPublicKey(p, alg, k2, l)
-	settle("EncryptPublicKey", alg, rpm("algorithm", alg, "plaintext", pt, "label", label), [][]byte{p, l, kb}, []string{"ciphertext"}, &r.ct)
+	call := func() (r pubEncRes) {
+		defer func() {
+			if x := recover(); x != nil {
+				r = pubEncRes{pan: panStr(x)}
+			}
+		}()
+		r.ct, r.err = kc.EncryptPublicKey(p, alg, k2, l)
+		return r
+	}
+	rp := rpm("algorithm", alg, "plaintext", pt, "label", label)
+	r = call()
+	// randomised: both calls must succeed or fail alike; the judges decrypt the first or the last output, alternately
+	last := repeatCheck("EncryptPublicKey", alg, rp, r, call, func(x, y pubEncRes) string {
+		return diffRes(x.pan, y.pan, x.err, y.err, []string{"ciphertext length"}, [][]byte{{byte(len(x.ct) >> 8), byte(len(x.ct))}}, [][]byte{{byte(len(y.ct) >> 8), byte(len(y.ct))}})
+	})
+	if repeatFlip = !repeatFlip; repeatFlip {
+		r = last
+	}
+	if r.pan != "" {
+		return r
+	}
+	settle("EncryptPublicKey", alg, rp, [][]byte{p, l, kb}, []string{"ciphertext"}, &r.ct)
 	return r
 }
 
 func kDecPriv1(alg string, key jwk.Key, ct, label []byte) (r decRes) {
 	k2, kb := privKey(key)
 	c, l := clone(ct), clone(label)
-	defer func() {
-		if x := recover(); x != nil {
-			r = decRes{pan: panStr(x)}
-		}
-	}()
-	r.pt, r.err = kc.DecryptPrivateKey(c, alg, k2, l)
-	settle("DecryptPrivateKey", alg, rpm("algorithm", alg, "ciphertext", ct, "label", label), [][]byte{c, l, kb}, []string{"plaintext"}, &r.pt)
+	call := func() (r decRes) {
+		defer func() {
+			if x := recover(); x != nil {
+				r = decRes{pan: panStr(x)}
+			}
+		}()
+		r.pt, r.err = kc.DecryptPrivateKey(c, alg, k2, l)
+		return r
+	}
+	rp := rpm("algorithm", alg, "ciphertext", ct, "label", label)
+	r = call()
+	repeatCheck("DecryptPrivateKey", alg, rp, r, call, diffDec)
+	if r.pan != "" {
+		return r
+	}
+	settle("DecryptPrivateKey", alg, rp, [][]byte{c, l, kb}, []string{"plaintext"}, &r.pt)
 	return r
 }
 
@@ -63,13 +87,31 @@ type signRes struct {
 func kSign1(alg string, key jwk.Key, digest []byte) (r signRes) {
 	k2, kb := privKey(key)
 	d := clone(digest)
-	defer func() {
-		if x := recover(); x != nil {
-			r = signRes{pan: panStr(x)}
+	call := func() (r signRes) {
+		defer func() {
+			if x := recover(); x != nil {
+				r = signRes{pan: panStr(x)}
+			}
+		}()
+		r.sig, r.err = kc.SignPrivateKey(d, alg, k2)
+		return r
+	}
+	rp := rpm("algorithm", alg, "digest", digest)
+	deterministic := strings.HasPrefix(alg, "RS") || alg == "EdDSA"
+	r = call()
+	last := repeatCheck("SignPrivateKey", alg, rp, r, call, func(x, y signRes) string {
+		if deterministic {
+			return diffRes(x.pan, y.pan, x.err, y.err, []string{"signature"}, [][]byte{x.sig}, [][]byte{y.sig})
 		}
-	}()
-	r.sig, r.err = kc.SignPrivateKey(d, alg, k2)
-	settle("SignPrivateKey", alg, rpm("algorithm", alg, "digest", digest), [][]byte{d, kb}, []string{"signature"}, &r.sig)
+		return diffRes(x.pan, y.pan, x.err, y.err, nil, nil, nil)
+	})
+	if repeatFlip = !repeatFlip; repeatFlip {
+		r = last
+	}
+	if r.pan != "" {
+		return r
+	}
+	settle("SignPrivateKey", alg, rp, [][]byte{d, kb}, []string{"signature"}, &r.sig)
 	return r
 }
 
@@ -82,12 +124,25 @@ type verifyRes struct {
 func kVerify(alg string, key jwk.Key, digest, sig []byte) (r verifyRes) {
 	k2, kb := privKey(key)
 	d, s := clone(digest), clone(sig)
-	defer func() {
-		if x := recover(); x != nil {
-			r = verifyRes{pan: panStr(x)}
+	call := func() (r verifyRes) {
+		defer func() {
+			if x := recover(); x != nil {
+				r = verifyRes{pan: panStr(x)}
+			}
+		}()
+		r.ok, r.err = kc.VerifyPublicKey(d, s, alg, k2)
+		return r
+	}
+	r = call()
+	repeatCheck("VerifyPublicKey", alg, rpm("algorithm", alg, "digest", digest, "signature", sig, "key", key), r, call, func(x, y verifyRes) string {
+		if x.ok != y.ok {
+			return fmt.Sprintf("first verdict %v, repeated verdict %v", x.ok, y.ok)
 		}
-	}()
-	r.ok, r.err = kc.VerifyPublicKey(d, s, alg, k2)
+		return diffRes(x.pan, y.pan, x.err, y.err, nil, nil, nil)
+	})
+	if r.pan != "" {
+		return r
+	}
 	settle("VerifyPublicKey", alg, nil, [][]byte{d, s, kb}, nil)
 	return r
 }
